@@ -21,7 +21,7 @@ EXPLANATION = (
     'Unbounded family: for the REAL GRCh37/GRCh38 contig lengths (from hail/hail/resources/reference/*.json) and every '
     'interval_size in [1, 2^31), the while loop is cut at its head with the invariant "positions 1..n-1 are covered, '
     'n = 1 + i*stride or n = L+1" (stride obtained by symbolic execution of the first iteration); base, step (one symbolic '
-    'iteration of the real body) and exit obligations are BV queries; math.ceil(L/x) is read as the integer ceiling, '
+    'iteration of the real body) and exit obligations are nonlinear integer (QF_NIA) queries; math.ceil(L/x) is read as the integer ceiling, '
     'justified per contig length by a Float64 lemma decided by z3 4.8.12/cvc5. Counterexamples are replayed on the real '
     'function with a real hl.ReferenceGenome. (b) CrossHair on the real VariantDatasetCombiner with ghost datasets, see '
     'harness/C38_planrun.py; bounded input counts.'
@@ -338,9 +338,12 @@ def inductive_contig(R, rep, genome, contig, Lc, lemma_cache, timeout):
     if len(carried) != 1:
         raise HarnessError(f'calc_parts: expected one loop-carried position variable, found {carried}')
     nvar = carried[0]
-    W = 40
     SMAX = 1 << 31
     tag = f'{genome}:{contig} L={Lc}'
+
+    def lemma_domain(i, a, b):
+        # the per-contig Float64 lemma is proved for numerator L and 1 <= b < 2^31
+        i.add_side(z3.And(i.it(b) >= 1, i.it(b) < SMAX), 'ceil lemma domain')
 
     def setup(it):
         S = it.int_var('size')
@@ -351,7 +354,7 @@ def inductive_contig(R, rep, genome, contig, Lc, lemma_cache, timeout):
         return S, rg, env0
 
     def mk():
-        return pyk.Interp(width=W, opaque={id(hl.Interval): 'Interval', id(hl.Locus): 'Locus'}, ceil_cut=True,
+        return pyk.Interp(int_mode='int', opaque={id(hl.Interval): 'Interval', id(hl.Locus): 'Locus'}, ceil_cut=lemma_domain,
                           feas_timeout_ms=4000)
 
     globs = vars(comb)
@@ -424,6 +427,7 @@ def inductive_contig(R, rep, genome, contig, Lc, lemma_cache, timeout):
     it2 = mk()
     S2, rg2, env02 = setup(it2)
     n0 = it2.int_var('n0')
+    i0 = it2.int_var('i0')      # ghost: number of strides taken so far
     Lt = it2.bv(Lc)
     one = it2.bv(1)
 
@@ -454,8 +458,8 @@ def inductive_contig(R, rep, genome, contig, Lc, lemma_cache, timeout):
         _, stride, out = p.value
         side = z3.And(*p.side) if p.side else z3.BoolVal(True)
 
-        def inv(n):
-            return z3.And(n >= one, n <= Lt + one, stride >= one, z3.Or(z3.URem(n - one, stride) == 0, n == Lt + one))
+        def inv(n, i):
+            return z3.And(n >= one, n <= Lt + one, stride >= one, i >= 0, z3.Or(n == one + i * stride, n == Lt + one))
         if out[0] == 'step':
             bs, n1 = out[1], out[2]
             cont = [z3.BoolVal(True)]
@@ -469,14 +473,14 @@ def inductive_contig(R, rep, genome, contig, Lc, lemma_cache, timeout):
             lens = [hi - lo + one for lo, hi in bs]
             sized = z3.And(*[x <= S2.t for x in lens]) if lens else z3.BoolVal(True)
             sized1 = z3.And(*[x <= S2.t + one for x in lens]) if lens else z3.BoolVal(True)
-            base = z3.And(pc, inv(n0.t))
+            base = z3.And(pc, inv(n0.t, i0.t))
             reach_step.append(base)
             v_contig.append(z3.And(base, z3.Or(z3.Not(side), z3.Not(z3.And(*cont)))))
             v_long1.append(z3.And(base, side, z3.Not(sized), sized1))
             v_longn.append(z3.And(base, side, z3.Not(sized), z3.Not(sized1)))
-            v_inv.append(z3.And(base, side, z3.And(*cont), z3.Not(inv(n1))))
+            v_inv.append(z3.And(base, side, z3.And(*cont), z3.Not(inv(n1, i0.t + one))))
         else:
-            base = z3.And(pc, inv(n0.t))
+            base = z3.And(pc, inv(n0.t, i0.t))
             reach_exit.append(base)
             v_exit1.append(z3.And(base, n0.t == Lt))
             v_exitn.append(z3.And(base, n0.t != Lt, n0.t != Lt + one))
@@ -489,7 +493,8 @@ def inductive_contig(R, rep, genome, contig, Lc, lemma_cache, timeout):
         s.set('timeout', 20000)
         s.add(*pre)
         s.add(f)
-        return str(s.check()) == 'sat'
+        return str(s.check()) == 'sat'   # 'unknown' counts as "not shown reachable"
+
     r_step, r_exit = sat_quick(orr(reach_step)), sat_quick(orr(reach_exit))
     queries = [
         ('step: body terminates and builds well-formed intervals', orr(bad_flow), [CLS_RAISE], r_step),
@@ -507,7 +512,7 @@ def inductive_contig(R, rep, genome, contig, Lc, lemma_cache, timeout):
             plan.append((name, None, classes, reach))
             continue
         key = ('q', tag, label)
-        jobs.append((key, pyk.smt2(pre + [vio], 'QF_BV'), ('z3new', 'cvc5'), timeout))
+        jobs.append((key, pyk.smt2(pre + [vio], 'QF_NIA'), ('z3new', 'cvc5'), timeout))
         plan.append((name, key, classes, reach))
     R.transitions += len(paths2)
 
